@@ -359,7 +359,10 @@ class Check:
     def violation(self, key, what, witness, source="search"):
         """A concrete failing input against the implementation (or a broken obligation)."""
         for k in self.known:
-            if k.get("status") == "open" and k.get("key") == key:
+            # a listed key may end in '*' (same call site and input class, varying suffix)
+            kk = k.get("key", "")
+            hit = (kk == key) or (kk.endswith("*") and key.startswith(kk[:-1]))
+            if k.get("status") == "open" and hit:
                 self.known_hits.append((k, what))
                 return
         self.violations.append({"key": key, "what": what, "witness": witness, "source": source})
